@@ -92,6 +92,15 @@ def run(ck):
                 if rng.random() < 0.6:
                     b = rng.choice(BANNERS[:-1])
                     ls.append(b)
+                if rng.random() < 0.3:
+                    # inside a region that is selected (also nested, also the #else side): what follows the region comes after it
+                    how = rng.choice(["if", "else", "nested"])
+                    if "#define ON" not in ls:
+                        ls.insert(0, "#define ON")
+                    ls += {"if": ["#if ON"], "else": ["#if !ON", "custom Never%d" % len(ls), "#else"], "nested": ["#if ON", "#if ON || OFF"]}[how]
+                    ls.append(slicegen.r_def(d))
+                    ls += ["#endif"] * (2 if how == "nested" else 1)
+                    continue
                 ls.append(slicegen.r_def(d))
             if rng.random() < 0.5:
                 ls.append(rng.choice(BANNERS[:-1]))
@@ -140,7 +149,7 @@ def run(ck):
                 prev = (kind, here)
     m = core.run_model("visit", mlines, chunk=2000)
     ck.stream("traversal", description="recording Visitor on every file of generated programs (all definition kinds, anonymous types nested to depth 3, aliases of anonymous types used across files, unresolvable references); "
-              "the model walks the AST as the public accessors present it; comments of every shape between the definitions; every definition the program declares (read from the program, not from the compiled file) is presented; observable: the full event list (entity by scoped id, type reference by file:span); and where every presented entity is written: in the file walked, each after the one before it")
+              "the model walks the AST as the public accessors present it; comments of every shape between the definitions, definitions inside selected conditional regions followed by others; every definition the program declares (read from the program, not from the compiled file) is presented; observable: the full event list (entity by scoped id, type reference by file:span); and where every presented entity is written: in the file walked, each after the one before it")
     for ml, mo, (ts, ids, ev, fsx) in zip(mlines, m, meta):
         ck.count("traversal", ml, kind="file")
         if mo.startswith("SPECMISMATCH"):
